@@ -272,7 +272,12 @@ func (s *InMemoryStore) UpdateOffsets(ctx context.Context, topic string, partiti
 	}
 	s.mu.Lock()
 	defer s.mu.Unlock()
-	s.offsets[partitionKey(topic, partition)] = lastOffset + 1
+	// The stored next offset is the durable high watermark: never move it back
+	// (flush callbacks of consecutive segments can arrive out of order).
+	key := partitionKey(topic, partition)
+	if next := lastOffset + 1; next > s.offsets[key] {
+		s.offsets[key] = next
+	}
 	return nil
 }
 
